@@ -13,6 +13,9 @@
      varargs   (root, ctx, info, *args)    like missing: field arguments are passed by keyword, *args cannot receive them
      short     (root, ctx, a=None)         for a field with argument a only two positionals remain for (root, ctx, info): incompatible;
                                            for `plain` the parameter a is the third positional: compatible
+     argfirst  (a, root, ctx, info)        resolvers are called as resolver(root, ctx, info, **arguments): a parameter named like an
+                                           argument among the first three positionals receives two values - incompatible with `strict`
+                                           and `loose`; for `plain` the fourth positional matches no argument: incompatible
    State: res[f] = signature class assigned to field f ("none" = no resolver), memo = what validate() last concluded.
    Actions: Register(f, c) (with override), Validate.  The specification's verdict is a function of the CURRENT state:
    every Validate step records whether validate() must raise.  The same function object may be assigned to several fields
@@ -23,13 +26,13 @@
 EXTENDS Naturals, Sequences, FiniteSets, TLC, Json
 CONSTANT MaxOps
 Fields == {"strict", "loose", "plain"}
-Classes == {"exact", "default", "kwargs", "missing", "few", "varargs", "short"}
+Classes == {"exact", "default", "kwargs", "missing", "few", "varargs", "short", "argfirst"}
 Compatible(f, c) ==
   CASE c = "none" -> TRUE
     [] c \in {"default", "kwargs"} -> TRUE
     [] c = "exact" -> f = "strict"
     [] c \in {"missing", "varargs", "short"} -> f = "plain"
-    [] c = "few" -> FALSE
+    [] c \in {"few", "argfirst"} -> FALSE
 \* Three levels of resolvers: the field's own (res[f]), the default resolver of its type (tdef: register_default_resolver) and the
 \* schema wide default (sdef: schema.default_resolver = f, the documented assignment).  The resolver that SERVES a field - and whose
 \* signature therefore matters - is the first one set in that order, as in the executor; without any, the library's own default
